@@ -541,6 +541,14 @@ func (srv *server) sendWillLocked(msg *gmqtt.Message, clientID string) {
 	if req.Message == nil {
 		return
 	}
+	// a will registered with Will Retain = 1 is published as a retained message [MQTT-3.1.2-17]
+	if req.Message.Retained {
+		if len(req.Message.Payload) == 0 {
+			srv.retainedDB.Remove(req.Message.Topic)
+		} else {
+			srv.retainedDB.AddOrReplace(req.Message.Copy())
+		}
+	}
 	srv.deliverMessage(clientID, req.Message, defaultIterateOptions(req.Message.Topic))
 	if srv.hooks.OnWillPublished != nil {
 		srv.hooks.OnWillPublished(context.Background(), clientID, req.Message)
